@@ -174,7 +174,12 @@ func Embed(rt *rapid.T, f *ExifFile) []Embedding {
 	a, _ := cw([4][]byte{pII, nil, nil, nil})
 	b, _ := cw([4][]byte{pMM, nil, nil, nil})
 	out = append(out, Embedding{Name: "cr3", II: a, MM: b, Entries: []string{"Decode", "DecodeCR3"}, Type: "cr3"})
-	if f.Split[0] != nil {
+	// The decoder resolves the camera-model table through the make, so whether the Make value is read
+	// before the Model value is part of what a result legitimately depends on (DESIGN Appendix A). The
+	// split encoding places its blocks independently; it is used only when it keeps that order.
+	if f.Split[0] != nil && MakeBeforeModel(f.Split[0]) != MakeBeforeModel(f.Enc) {
+		f.Classes = append(f.Classes, "cr3-split-skipped(make/model value order differs from the single block)")
+	} else if f.Split[0] != nil {
 		var ii, mm [4][]byte
 		for i, e := range f.Split {
 			if e != nil {
@@ -193,4 +198,18 @@ func Embed(rt *rapid.T, f *ExifFile) []Embedding {
 		}
 	}
 	return out
+}
+
+// MakeBeforeModel reports whether a streaming reader meets the Make value before the Model value.
+func MakeBeforeModel(e *Encoded) bool {
+	mo, mok := e.ValueOff["IFD0:010f"]
+	to, tok := e.ValueOff["IFD0:0110"]
+	switch {
+	case !mok: // make embedded (parsed while the table is read) or absent
+		return true
+	case !tok: // model embedded but make out of line
+		return false
+	default:
+		return mo < to
+	}
 }
